@@ -473,6 +473,10 @@ func dpCmd(args []string) {
 			cid, writer := t.next(), t.next()
 			nthreads, total := t.int(), t.int()
 			s.addRowCase(cid, writer, nthreads, total)
+		case "ADDROWPAIR":
+			cidA, writerA, cidB, writerB := t.next(), t.next(), t.next(), t.next()
+			nthreads, total, off := t.int(), t.int(), t.int()
+			s.addRowPair(cidA, writerA, cidB, writerB, nthreads, total, off)
 		case "HREUSE":
 			// one query object executed, modified in place into a second query, executed again
 			qid := t.next()
